@@ -1,6 +1,7 @@
 (* C14 - Every deal survives every encoding round trip.
    Only statements, each closed by [exact]; proofs are in the files imported below. *)
 From BE Require Import Model.Json Gen.JsonFns Proofs.JsonGen.
+From BE Require Import Gen.HandsFns Proofs.HandsGen.
 From BE Require Import Model.Hands Proofs.Hands Gen.Regexes Proofs.Pins.
 From Coq Require Import Permutation.
 Local Open Scope nat_scope.
@@ -87,6 +88,62 @@ Theorem C14_json_each_card_once :
   forall h, NoDup (sorted_hand h) /\ (forall c, In c (sorted_hand h) <-> In c h).
 Proof. exact json_lists_each_card_once. Qed.
 Print Assumptions C14_json_each_card_once.
+
+(* Hands.to_pbn REGENERATED from hands.py on every run (harness/gen_hands.py) equals the hand model, for every deal and first seat *)
+Theorem C14_generated_to_pbn_is_hand_model :
+  forall s dealer, g_to_pbn s dealer = to_pbn (deal_of s) dealer.
+Proof. exact to_pbn_gen. Qed.
+Print Assumptions C14_generated_to_pbn_is_hand_model.
+
+Theorem C14_generated_hand_to_pbn_is_hand_model :
+  forall h, g_convert_hand_to_pbn h = hand_to_pbn h.
+Proof. exact convert_hand_to_pbn_gen. Qed.
+Print Assumptions C14_generated_hand_to_pbn_is_hand_model.
+
+Theorem C14_generated_to_binary_is_hand_model :
+  forall s,
+  g_to_binary s = Some [(North, to_binary (h_north s)); (East, to_binary (h_east s));
+                        (South, to_binary (h_south s)); (West, to_binary (h_west s))].
+Proof. exact to_binary_gen. Qed.
+Print Assumptions C14_generated_to_binary_is_hand_model.
+
+(* convert_binary regenerated (a missing key or a short vector raises); the hands come out in the reverse order of insertion, the same sets *)
+Theorem C14_generated_convert_binary_is_hand_model :
+  forall b vn ve vs vw,
+  py_dict_get seat_beq North b = Some vn -> py_dict_get seat_beq East b = Some ve ->
+  py_dict_get seat_beq South b = Some vs -> py_dict_get seat_beq West b = Some vw ->
+  52 <= length vn -> 52 <= length ve -> 52 <= length vs -> 52 <= length vw ->
+  g_convert_binary b = Some (mkHands (rev (convert_binary vn ve vs vw North)) (rev (convert_binary vn ve vs vw East))
+                                     (rev (convert_binary vn ve vs vw South)) (rev (convert_binary vn ve vs vw West))).
+Proof. exact convert_binary_gen. Qed.
+Print Assumptions C14_generated_convert_binary_is_hand_model.
+
+(* the random dealer regenerated, for every shuffle *)
+Theorem C14_generated_dealer_is_hand_model :
+  forall shuffle : list card -> list card,
+  g_generate_random_hands shuffle = Some (hands_of (deal_of_shuffle (shuffle pack_order))).
+Proof. exact generate_random_hands_gen. Qed.
+Print Assumptions C14_generated_dealer_is_hand_model.
+
+(* the property, for the regenerated functions *)
+Theorem C14_pbn_roundtrip_generated :
+  forall s dealer t, pbn_deal (deal_of s) -> g_to_pbn s dealer = Some t ->
+  exists d', convert_pbn t = Some d' /\ same_deal (deal_of s) d'.
+Proof. exact generated_pbn_roundtrip. Qed.
+Print Assumptions C14_pbn_roundtrip_generated.
+
+Theorem C14_binary_roundtrip_generated :
+  forall s, disjoint (deal_of s) -> exists b s',
+  g_to_binary s = Some b /\ g_convert_binary b = Some s' /\ same_deal (deal_of s) (deal_of s').
+Proof. exact generated_binary_roundtrip. Qed.
+Print Assumptions C14_binary_roundtrip_generated.
+
+Theorem C14_dealer_generated :
+  forall shuffle : list card -> list card,
+  Permutation pack_order (shuffle pack_order) -> exists s, g_generate_random_hands shuffle = Some s /\
+    (forall p, length (deal_of s p) = 13 /\ NoDup (deal_of s p)) /\ disjoint (deal_of s) /\ (forall c, exists p, In c (deal_of s p)).
+Proof. exact generated_dealer_deals_a_deal. Qed.
+Print Assumptions C14_dealer_generated.
 
 (* convert_deal REGENERATED from json_handler/writer.py on every run equals the hand model, for every deal *)
 Theorem C14_generated_deal_writer_is_hand_model :
